@@ -235,6 +235,7 @@ let script_apply (s : state) (a : string) : state * string =
       let c = if (s.lat.locks i).lstale then 0 else (try Hashtbl.find commits ii with Not_found -> 0) in
       (settle (ex s (LUnlock (i, n_i c))), "-")
   | 'X' -> (quiesce (ex s LClose), "-")
+  | 'N' -> (s, "-")   (* a commit that must bypass the latches: nothing happens *)
   | 'M' ->
       let todo = List.filter (fun ii -> s.pc (nat_of_int ii) = TDone) (List.init !ntx (fun x -> x)) in
       let unl st ii = exec sf (ns ()) st (LUnlock (nat_of_int ii, n_i (try Hashtbl.find commits ii with Not_found -> 0))) in
